@@ -23,6 +23,7 @@ RULE = ("lattice: n x objective {sepquad, coupquad, recip, linear} x constraint 
         "the cap or fails the KKT bound (all iterations up to and including that call are judged). A run "
         "is non-trivial if it has >= 3 iterations and starts farther than 1e-3 (normalised) from the reference "
         "optimum; distinct by the full descriptor")
+RULE += " Extended in seeding rounds 6-7:  uniformly small physical scale with the default tolx, lower bounds exactly zero with starts on them, option arrays unchanged by the run; KF-C10-1 inputs listed for the complete thorough lattice (no time budget)."
 ASSUMPTIONS = [
     "value tables are fixed 'generic' numbers (fractional parts of scaled square roots of primes); boxes have lo > 0",
     "reference optimum = SLSQP start + active-set Newton polish, trusted only after the KKT conditions of the "
